@@ -466,8 +466,8 @@ func (group *Group) broadcastByRtmpMsg(msg base.RtmpMsg) {
 				var ctx hevc.Context
 				err = hevc.ParseSps(sps, &ctx)
 				if err == nil {
-					group.stat.VideoHeight = int(ctx.PicHeightInLumaSamples)
-					group.stat.VideoWidth = int(ctx.PicWidthInLumaSamples)
+					group.stat.VideoHeight = int(ctx.Height)
+					group.stat.VideoWidth = int(ctx.Width)
 				}
 			}
 		}
